@@ -9,9 +9,8 @@ import Logg.Model.Utf8
 
 namespace Logg
 
-def hexDigits : Array UInt8 := "0123456789abcdef".toUTF8.data
-
-def hexChar (n : Nat) : UInt8 := hexDigits.getD (n % 16) 48
+/-- `"0123456789abcdef"[n % 16]` -/
+def hexChar (n : Nat) : UInt8 := if n % 16 < 10 then (48 + n % 16).toUInt8 else (87 + n % 16).toUInt8
 
 def hex2 (n : Nat) : Bytes := [hexChar (n / 16), hexChar n]
 def hex4 (n : Nat) : Bytes := [hexChar (n / 4096), hexChar (n / 256), hexChar (n / 16), hexChar n]
@@ -21,17 +20,17 @@ def hex8 (n : Nat) : Bytes := hex4 (n / 65536) ++ hex4 n
 def escapeRune (isPrint : Nat → Bool) (r : Nat) : Bytes :=
   if r == 34 || r == 92 then [92, r.toUInt8]
   else if isPrint r then encodeRune r
-  else if r == 7 then b "\\a"
-  else if r == 8 then b "\\b"
-  else if r == 12 then b "\\f"
-  else if r == 10 then b "\\n"
-  else if r == 13 then b "\\r"
-  else if r == 9 then b "\\t"
-  else if r == 11 then b "\\v"
-  else if r < 32 || r == 127 then b "\\x" ++ hex2 r
-  else if !validRune r then b "\\u" ++ hex4 runeError
-  else if r < 0x10000 then b "\\u" ++ hex4 r
-  else b "\\U" ++ hex8 r
+  else if r == 7 then ([92, 97] : Bytes)
+  else if r == 8 then ([92, 98] : Bytes)
+  else if r == 12 then ([92, 102] : Bytes)
+  else if r == 10 then ([92, 110] : Bytes)
+  else if r == 13 then ([92, 114] : Bytes)
+  else if r == 9 then ([92, 116] : Bytes)
+  else if r == 11 then ([92, 118] : Bytes)
+  else if r < 32 || r == 127 then ([92, 120] : Bytes) ++ hex2 r
+  else if !validRune r then ([92, 117] : Bytes) ++ hex4 runeError
+  else if r < 0x10000 then ([92, 117] : Bytes) ++ hex4 r
+  else ([92, 85] : Bytes) ++ hex8 r
 
 def quoteBody (isPrint : Nat → Bool) : (fuel : Nat) → Bytes → Bytes
   | 0, _ => []
@@ -40,7 +39,7 @@ def quoteBody (isPrint : Nat → Bool) : (fuel : Nat) → Bytes → Bytes
     if b0 < 0x80 then escapeRune isPrint b0.toNat ++ quoteBody isPrint fuel (s.drop 1)
     else
       let (r, w) := decodeRune s
-      if w == 1 && r == runeError then b "\\x" ++ hex2 b0.toNat ++ quoteBody isPrint fuel (s.drop 1)
+      if w == 1 && r == runeError then ([92, 120] : Bytes) ++ hex2 b0.toNat ++ quoteBody isPrint fuel (s.drop 1)
       else escapeRune isPrint r ++ quoteBody isPrint fuel (s.drop w)
 
 /-- Go-syntax quoting of a string value: `"` … `"`. -/
@@ -51,10 +50,10 @@ def jsonSafe (b0 : UInt8) : Bool := 0x20 ≤ b0 && b0 != 34 && b0 != 92
 
 def jsonEscapeByte (b0 : UInt8) : Bytes :=
   if b0 == 34 || b0 == 92 then [92, b0]
-  else if b0 == 10 then b "\\n"
-  else if b0 == 13 then b "\\r"
-  else if b0 == 9 then b "\\t"
-  else b "\\u00" ++ hex2 b0.toNat
+  else if b0 == 10 then ([92, 110] : Bytes)
+  else if b0 == 13 then ([92, 114] : Bytes)
+  else if b0 == 9 then ([92, 116] : Bytes)
+  else ([92, 117, 48, 48] : Bytes) ++ hex2 b0.toNat
 
 /-- `appendEscapedJSONString` (without the surrounding quotes). -/
 def jsonEscape : (fuel : Nat) → Bytes → Bytes
@@ -65,8 +64,8 @@ def jsonEscape : (fuel : Nat) → Bytes → Bytes
       (if jsonSafe b0 then [b0] else jsonEscapeByte b0) ++ jsonEscape fuel (s.drop 1)
     else
       let (r, w) := decodeRune s
-      if r == runeError && w == 1 then b "\\ufffd" ++ jsonEscape fuel (s.drop 1)
-      else if r == 0x2028 || r == 0x2029 then b "\\u202" ++ [hexChar r] ++ jsonEscape fuel (s.drop w)
+      if r == runeError && w == 1 then ([92, 117, 102, 102, 102, 100] : Bytes) ++ jsonEscape fuel (s.drop 1)
+      else if r == 0x2028 || r == 0x2029 then ([92, 117, 50, 48, 50] : Bytes) ++ [hexChar r] ++ jsonEscape fuel (s.drop w)
       else s.take w ++ jsonEscape fuel (s.drop w)
 
 def jsonQuote (s : Bytes) : Bytes := 34 :: jsonEscape s.length s ++ [34]
